@@ -225,3 +225,20 @@ func verifCfg(name string, def int) int {
 	}
 	return def
 }
+
+// verifCatch runs f and reports whether it panicked (infeasible-path markers pass through).
+func verifCatch(f func()) (panicked bool) {
+	defer func() {
+		if r := recover(); r != nil {
+			if _, ok := r.(verifInfeasible); ok {
+				panic(r)
+			}
+			panicked = true
+		}
+	}()
+	f()
+	return false
+}
+
+// verifSameF: equal as float64 values, all NaNs alike.
+func verifSameF(a, b float64) bool { return verifOr(a == b, verifAnd(a != a, b != b)) }
